@@ -66,13 +66,23 @@ pub fn string_to_tokens(file_id: usize, content: &str) -> Vec<PlacedToken> {
         // Contains side-effects.
         .map(|(token, byte_range)| {
             let is_newline = token == Token::Newline;
+            let line_start = line;
             let col_start = char_at_byte[byte_range.start].unwrap() - last_newline;
+            if !is_newline {
+                // A token can span several lines (string literals): the lines
+                // and the column base move along with it.
+                let text = &content[byte_range.clone()];
+                if let Some(pos) = text.rfind('\n') {
+                    line += text.matches('\n').count();
+                    last_newline = char_at_byte[byte_range.start + pos].unwrap();
+                }
+            }
             let col_end = char_at_byte[byte_range.end].unwrap() - last_newline;
             let span = Span {
                 file_id,
                 col_start,
                 col_end,
-                line_start: line,
+                line_start,
                 line_end: line,
             };
             if is_newline {
